@@ -22,7 +22,12 @@ impl Flounder {
     pub fn uci_loop(&mut self) {
         loop {
             let mut command = String::new();
-            if std::io::stdin().read_line(&mut command).is_ok() {
+            let read = std::io::stdin().read_line(&mut command);
+            if let Ok(0) = read {
+                // End of input: nothing more will ever arrive
+                return;
+            }
+            if read.is_ok() {
                 command = command.trim().to_string();
                 if !command.is_empty() {
                     self.handle_command(&command);
